@@ -32,7 +32,8 @@ Category(e) == IF \A i \in 1..Len(e.x) : Same(e.x[1], e.x[i]) \/ ZeroSectorOnly(
 First(e) == CHOOSE i \in 1..Len(e.x) : ~Same(e.x[1], e.x[i])
 Init == tid \in 1..Len(Traces) /\ l = 1
 Step == l \in 1..Len(Ev) /\ (Ok(Ev[l]) = TRUE) /\ l' = l + 1 /\ UNCHANGED tid
-Fail == l \in 1..Len(Ev) /\ ~Ok(Ev[l]) /\ PrintT(<<"REJECT", tid, l, ToString(<<Category(Ev[l]), "execution", First(Ev[l]), Ev[l].x[First(Ev[l])].legs, "vs execution 1", Ev[l].x[1].legs>>)>>)
+Shown(x) == IF x.out = "ok" THEN x.legs ELSE <<x.out>>          \* the diagnostic is total: an execution that was rejected has no legs
+Fail == l \in 1..Len(Ev) /\ ~Ok(Ev[l]) /\ PrintT(<<"REJECT", tid, l, ToString(<<Category(Ev[l]), "execution", First(Ev[l]), Shown(Ev[l].x[First(Ev[l])]), "vs execution 1", Shown(Ev[l].x[1])>>)>>)
         /\ l' = l + 1 /\ UNCHANGED tid
 Done == l = Len(Ev) + 1 /\ PrintT(<<"ACCEPT", tid>>) /\ l' = -1 /\ UNCHANGED tid
 Next == Step \/ Fail \/ Done
